@@ -16,6 +16,8 @@ class KDSubset(Subset):
             return getattr(super(), item)
         if item.startswith("getall_"):
             # subsample getitem_ with the indices
+            # (resolve the attribute on the wrapped dataset first -> hasattr is False if there is no bulk accessor)
+            getattr(self.dataset, item)
             return partial(self._call_getall, item)
         return getattr(self.dataset, item)
 
